@@ -93,6 +93,13 @@ fn main() {
                 println!("{}: {:?}", f.name, pdlmc_core::graph::level_sizes(f, tier, 3_000_000));
             }
         }
+        "build-derive" => {
+            let tier = tier_of(args.get(2).map(|s| s.as_str()).unwrap_or("quick"));
+            if !c11::build_derive(tier) {
+                std::process::exit(2);
+            }
+            println!("derive harnesses built");
+        }
         "supported" => {
             let tier = tier_of(args.get(2).map(|s| s.as_str()).unwrap_or("quick"));
             front::print_supported(tier);
